@@ -32,7 +32,10 @@ type simFile struct {
 	chunk    int // reader hands out at most this many bytes per Read (0: unlimited)
 	// eofWithData: the reader returns the last bytes together with io.EOF (io.Reader allows it)
 	eofWithData bool
-	stats       *zipIOStats
+	// meanwhile, if set, runs once inside a Read of this file, after the bytes have been copied into
+	// the caller's buffer and before Read returns: what another goroutine of the caller does just then
+	meanwhile func()
+	stats     *zipIOStats
 }
 
 // zipIOStats is shared by all files of a run. Nothing says that the code under test touches the files
@@ -120,6 +123,11 @@ func (r *simReader) Read(p []byte) (int, error) {
 		copy(p, f.content[r.off:r.off+n])
 	}
 	r.off += n
+	if f.meanwhile != nil && n > 0 {
+		m := f.meanwhile
+		f.meanwhile = nil
+		m()
+	}
 	if !f.virtual && r.off > f.size && !r.grew {
 		r.grew = true
 		f.stats.hit("grew") // more bytes delivered than Lstat reported
